@@ -2,6 +2,7 @@
 # not special engine, only concerns scalars here
 from collections import defaultdict
 from functools import lru_cache
+from itertools import zip_longest
 
 from scipy import special
 
@@ -1157,31 +1158,36 @@ def compute_z_zprime_Q2d(cm0, ams, bms, u, t):
     m = 0
     # initialize to zero and incr at the front of the loop
     # to avoid putting an m += 1 at the bottom (too far from init)
-    for a_coef, b_coef in zip(ams, bms):
+    for a_coef, b_coef in zip_longest(ams, bms, fillvalue=()):
         m += 1
         # TODO: consider zeroing alphas and re-using it to reduce
         # alloc pressure inside this func; need care since len of any coef vector
         # may be unequal
 
-        if len(a_coef) == 0:
-            continue
-
         # can't use "as" => as keyword
         Na = len(a_coef) - 1
         Nb = len(b_coef) - 1
-        alphas_a = clenshaw_q2d_der(a_coef, m, usq)
-        alphas_b = clenshaw_q2d_der(b_coef, m, usq)
-        Sa = 0.5 * alphas_a[0][0]
-        Sb = 0.5 * alphas_b[0][0]
-        Sprimea = 0.5 * alphas_a[1][0]
-        Sprimeb = 0.5 * alphas_b[1][0]
-        if m == 1 and Na > 2:
-            Sa -= 2/5 * alphas_a[0][3]
-            # derivative is same, but instead of 0 index, index=j==1
-            Sprimea -= 2/5 * alphas_a[1][3]
-        if m == 1 and Nb > 2:
-            Sb -= 2/5 * alphas_b[0][3]
-            Sprimeb -= 2/5 * alphas_b[1][3]
+        if Na < 0 and Nb < 0:
+            continue
+
+        # the cosine and the sine sums are independent; an azimuthal order
+        # may carry either one, both, or radial expansions of unequal length
+        Sa = Sb = Sprimea = Sprimeb = 0
+        if Na >= 0:
+            alphas_a = clenshaw_q2d_der(a_coef, m, usq)
+            Sa = 0.5 * alphas_a[0][0]
+            Sprimea = 0.5 * alphas_a[1][0]
+            if m == 1 and Na > 2:
+                Sa -= 2/5 * alphas_a[0][3]
+                # derivative is same, but instead of 0 index, index=j==1
+                Sprimea -= 2/5 * alphas_a[1][3]
+        if Nb >= 0:
+            alphas_b = clenshaw_q2d_der(b_coef, m, usq)
+            Sb = 0.5 * alphas_b[0][0]
+            Sprimeb = 0.5 * alphas_b[1][0]
+            if m == 1 and Nb > 2:
+                Sb -= 2/5 * alphas_b[0][3]
+                Sprimeb -= 2/5 * alphas_b[1][3]
 
         um = u ** m
         cost = np.cos(m*t)
